@@ -1,3 +1,5 @@
 import TinsModel.Props.C01
 #print axioms Tins.Props.C01.cursor_safe
 #print axioms Tins.Props.C01.chain_parse_safe
+#print axioms Tins.Props.C01.parse_any_safe
+#print axioms Tins.Props.C01.parsed_layers_good
